@@ -40,7 +40,7 @@ def abs_name(name: str) -> str:
 
 
 def ident(pidx: int, rel: list) -> str:
-    return f"{pidx}_" + "_".join(t.replace(".", "_").replace("!", "") for t in rel)
+    return f"{pidx}_" + "_S_".join(t.replace(".", "_D_").replace("-", "_H_").replace("!", "") for t in rel)
 
 
 def content(tok: str, rel: list, pidx: int = 0) -> str:
